@@ -83,7 +83,7 @@ func scanInodes(dir string) map[uint64]fileState {
 }
 
 func runC08(c *fw.Case) {
-	if desyncBin() != "" && c.Chance(1, procRate(4), "c08.extract") {
+	if desyncBin() != "" && c.ChanceAdded(1, procRate(4), "c08.extract") {
 		if c.Bool("c08.traced") {
 			runC08Traced(c)
 			return
